@@ -26,14 +26,28 @@ from coba.evaluators import SequentialCB
 from coba.primitives import SimulatedInteraction
 from coba.context import CobaContext, NullLogger, MemoryCacher
 
+import coba.random as _coba_random
+
+
+class VirtualClock:
+    """Stands in for the `time` module seen by coba.random: every reading differs, so a generator that is seeded from the
+    clock instead of the given seed gives different streams in two otherwise identical executions."""
+    def __init__(self): self.now = 1.7e9
+    def time(self):
+        self.now += 1.0
+        return self.now
+
+
+_coba_random.time = VirtualClock()
+
 CobaContext.logger = NullLogger()
 CobaContext.cacher = MemoryCacher()
 CobaContext.search_paths = []
 
 # ------------------------------------------------------------------ alphabets (every value is built fresh from its name)
 
-ACT_NAMES = ['s', 'one', 'i123', 'i01', 'f', 'oh', 'l', 'sp', 'oh3', 'sp2', 'd1']       # simplest first
-ACT_KIND = {'s': 'strings', 'one': 'single int action', 'i123': 'ints 1..3', 'i01': 'ints 0/1', 'f': 'probability-like floats',
+ACT_NAMES = ['s', 'one', 'i123', 'i01', 'i012', 'f', 'f01', 'oh', 'l', 'sp', 'oh3', 'sp2', 'd1']       # simplest first
+ACT_KIND = {'i012': 'ints 0..2', 'f01': 'floats 0.0/1.0', 's': 'strings', 'one': 'single int action', 'i123': 'ints 1..3', 'i01': 'ints 0/1', 'f': 'probability-like floats',
             'oh': 'one-hot tuples (2)', 'l': 'lists', 'sp': 'sparse dicts (1 feature)', 'oh3': 'one-hot tuples (3)',
             'sp2': 'sparse dicts (2 features)', 'd1': 'dense tuples (1 feature)'}
 
@@ -43,6 +57,8 @@ def mk_acts(name):
     if name == 'one': return [7]
     if name == 'i123': return [1, 2, 3]
     if name == 'i01': return [0, 1]
+    if name == 'i012': return [0, 1, 2]
+    if name == 'f01': return [float('0'), float('1')]
     if name == 'f': return [float('0.25'), float('0.75')]
     if name == 'oh': return [tuple([1, 0]), tuple([0, 1])]
     if name == 'l': return [[1, 2], [3, 4]]
@@ -60,11 +76,11 @@ CTX_KINDS = ['none', 'scalar', 'list']
 
 def mk_ctx(kind, c, r):
     if kind == 'none': return None
-    if kind == 'scalar': return 10 * c + r + 1
-    return [10 * c + r + 1, 2]
+    if kind == 'scalar': return 10 * c + r            # 0 (falsy) for the first row of the first call
+    return [10 * c + r, 2]
 
 
-PROBS = [0.5, 1]
+PROBS = [0.5, 1, 0.0]        # incl. a falsy stated probability
 
 
 def mk_pmf(K, j):
@@ -81,8 +97,8 @@ def n_pmf(K): return 1 if K == 1 else K + 2
 def mk_kw(kwid, e):
     if kwid == 0: return None
     if kwid == 1: return {}
-    if kwid == 2: return {'i': e + 1}
-    return {'v': [e + 1, 2], 'w': 's%d' % e}
+    if kwid == 2: return {'i': e}                 # 0 (falsy) for the first script entry
+    return {'v': [e, 2], 'w': 's%d' % e}
 
 
 FMTS = ['A', 'AP', 'PM', 'hA', 'hAP', 'hPM']
@@ -148,7 +164,13 @@ def exec_choices(cfg):
     calls = cfg['calls']
     if len(calls) == 1:
         return [[c] for c in call_choices(cfg['fmt'], calls[0], True)]
-    return [[a, b] for a in call_choices(cfg['fmt'], calls[0], False) for b in call_choices(cfg['fmt'], calls[1], bool(cfg.get('full2')))]
+    if len(calls) == 2:
+        return [[a, b] for a in call_choices(cfg['fmt'], calls[0], False) for b in call_choices(cfg['fmt'], calls[1], bool(cfg.get('full2')))]
+    # longer histories: joint rotations - row r of call c takes choice (c + r + shift) mod |choices of that call|
+    rcs = [row_choices(cfg['fmt'], NACT[c['acts']]) for c in calls]
+    batched = cfg['mode'] != 'not'
+    return [[[rc[(c + r + s) % len(rc)] for r in range(calls[c]['n'] if batched else 1)] for c, rc in enumerate(rcs)]
+            for s in range(max(map(len, rcs)))]
 
 
 # ------------------------------------------------------------------ the scripted learner
@@ -313,12 +335,14 @@ def build_plan(cfg, ch):
         K = NACT[call['acts']]
         rows = []
         for r in range(n):
-            if call['ctx'] == 'none' and r > 0:
-                rows.append(rows[0]); continue          # indistinguishable rows: one script entry
-            en = {'ctx': mk_ctx(call['ctx'], c, r), 'acts': call['acts'], 'choice': ch[c][r], 'e': e}
+            ctx = mk_ctx(call['ctx'], c, r)
+            same = [en for en in entries if same_ctx(en['ctx'], ctx) and en['acts'] == call['acts']]
+            if same:
+                rows.append(same[0]); continue          # indistinguishable to a learner that is a function of (context, actions): one script entry
+            en = {'ctx': ctx, 'acts': call['acts'], 'choice': ch[c][r], 'e': e}
             e += 1
             entries.append(en); rows.append(en)
-            if fmt == 'PM' and stop_at is None and two_way(mk_pmf(K, ch[c][r][0]), mk_acts(call['acts'])): stop_at = c
+            if fmt == 'PM' and stop_at is None and two_way(mk_pmf(K, en['choice'][0]), mk_acts(call['acts'])): stop_at = c
         if fmt == 'PM' and mode == 'col' and kwid == 0 and c == 0 and n == 1 and K == 1 and stop_at is None:
             stop_at = 1       # the first answer [[1]] reads the same row- and column-major (also for a one-row probe): a value that can be read two ways
         plan.append(rows)
@@ -419,9 +443,10 @@ def simpler_cfgs(cfg, fcall):
         d = dict(cfg); d.update(kw); return d
     def wc(i, **kw):
         cs = [dict(c) for c in calls]; cs[i].update(kw); return w(calls=cs)
-    if len(calls) == 2:
-        if fcall == 0: yield w(calls=[dict(calls[0])]), 0
-        else: yield w(calls=[dict(calls[1])]), 0
+    if fcall < len(calls) - 1:                       # calls after the failing one are irrelevant
+        yield w(calls=[dict(c) for c in calls[:fcall + 1]]), fcall
+    for i in range(fcall):                           # drop one earlier call
+        yield w(calls=[dict(c) for j, c in enumerate(calls) if j != i]), fcall - 1
     last = len(calls) - 1
     for m in MODES[:_ord(MODES, cfg['mode'])]:
         yield w(mode=m), fcall
@@ -438,12 +463,11 @@ def simpler_cfgs(cfg, fcall):
         yield w(fmt=('h' if f[0] == 'h' else '') + b2), fcall
     for i in range(last, -1, -1):
         for a in ACT_NAMES[:_ord(ACT_NAMES, calls[i]['acts'])]:
-            if len(calls) == 2 and a == calls[1 - i]['acts']: continue
             yield wc(i, acts=a), fcall
     for i in range(last + 1):
         for x in CTX_KINDS[:_ord(CTX_KINDS, calls[i]['ctx'])]:
             yield wc(i, ctx=x), fcall
-    if cfg.get('seed', 1) != 1: yield w(seed=1), fcall
+    if cfg.get('seed', 1) != 1: yield w(seed=1), fcall          # 1 is SafeLearner's default seed
     if cfg.get('box', 'm') != 'm': yield w(box='m'), fcall
 
 
